@@ -33,29 +33,82 @@ pub struct ExParseIntError(std::num::ParseIntError);
 #[verifier::external_body] pub fn __fmt_bs(n: char) -> String { unimplemented!() }
 #[verifier::external_body] pub fn __string_from(s: &str) -> String { unimplemented!() }
 #[verifier::external_body] pub fn __clone_pue(x: &ParseUnicodeError) -> ParseUnicodeError { unimplemented!() }
-/// parse_unicode_hex (antlr/src/parse.rs; `chars.take(length).map(..).collect()`, `u32::from_str_radix`, `char::from_u32`:
-/// iterator adapters and std parsing are out of the verifier's reach).  ASSUMED contract, at the instance used by the callers:
+/// The contract of parse_unicode_hex / parse_unicode_oct, shared VERBATIM by the call-site declaration (`__parse_unicode_hex`, used where the
+/// callers hand over `&mut chars`) and by the unit that verifies the real function body (contracts/parse.parse_unicode_hex.vspec):
 /// consumes the next `length` characters (fewer at the end of input); when these are `length` hex digits the result is the
-/// character with that code point, or an error when the value is not a Unicode scalar value.  Nothing is assumed otherwise.
+/// character with that code point, or an error when the value is not a Unicode scalar value.  Nothing is required otherwise.
+pub open spec fn puh_post(length: usize, rest0: Seq<char>, pos0: nat, rest1: Seq<char>, pos1: nat, r: Result<char, ParseUnicodeError>) -> bool {
+    ({ let n = if rest0.len() < length { rest0.len() as int } else { length as int };
+       rest1 == rest0.skip(n) && pos1 == pos0 + n })
+    && ((rest0.len() >= length && hex_val(rest0.subrange(0, length as int)) is Some) ==>
+            ({ let v = hex_val(rest0.subrange(0, length as int))->Some_0;
+               if is_scalar(v) { r == Ok::<char, ParseUnicodeError>(chr(v)) } else { r is Err } }))
+}
+/// the same for `\OOO` (first digit given, the next two taken from the iterator); values above 255 are errors
+pub open spec fn puo_post(first_char: char, rest0: Seq<char>, pos0: nat, rest1: Seq<char>, pos1: nat, r: Result<char, ParseUnicodeError>) -> bool {
+    ({ let n = if rest0.len() < 2 { rest0.len() as int } else { 2int };
+       rest1 == rest0.skip(n) && pos1 == pos0 + n })
+    && ((rest0.len() >= 2 && oct_val3(first_char, rest0[0], rest0[1]) is Some) ==>
+            ({ let v = oct_val3(first_char, rest0[0], rest0[1])->Some_0;
+               if v <= 255 { r == Ok::<char, ParseUnicodeError>(chr(v)) } else { r is Err } }))
+}
+/// call-site declarations (the callers pass `&mut chars` with `chars: &mut Enumerate<Chars>`; the generic `I: Iterator` of the real
+/// signature is instantiated by the stand-in iterator).  Their contract is the one the real bodies are verified against.
 #[verifier::external_body]
 pub fn __parse_unicode_hex(length: usize, chars: &mut Enumerate<Chars>) -> (r: Result<char, ParseUnicodeError>)
-    ensures
-        ({ let n = if old(chars).rest().len() < length { old(chars).rest().len() as int } else { length as int };
-           final(chars).rest() == old(chars).rest().skip(n) && final(chars).pos() == old(chars).pos() + n }),
-        (old(chars).rest().len() >= length && hex_val(old(chars).rest().subrange(0, length as int)) is Some) ==>
-            ({ let v = hex_val(old(chars).rest().subrange(0, length as int))->Some_0;
-               if is_scalar(v) { r == Ok::<char, ParseUnicodeError>(chr(v)) } else { r is Err } }),
+    requires length == 2 || length == 4 || length == 8
+    ensures puh_post(length, old(chars).rest(), old(chars).pos(), final(chars).rest(), final(chars).pos(), r)
 { unimplemented!() }
-/// parse_unicode_oct: the same for `\OOO` (first digit given, the next two taken from the iterator); values above 255 are errors
 #[verifier::external_body]
 pub fn __parse_unicode_oct(first_char: &char, chars: &mut Enumerate<Chars>) -> (r: Result<char, ParseUnicodeError>)
-    ensures
-        ({ let n = if old(chars).rest().len() < 2 { old(chars).rest().len() as int } else { 2int };
-           final(chars).rest() == old(chars).rest().skip(n) && final(chars).pos() == old(chars).pos() + n }),
-        (old(chars).rest().len() >= 2 && oct_val3(*first_char, old(chars).rest()[0], old(chars).rest()[1]) is Some) ==>
-            ({ let v = oct_val3(*first_char, old(chars).rest()[0], old(chars).rest()[1])->Some_0;
-               if v <= 255 { r == Ok::<char, ParseUnicodeError>(chr(v)) } else { r is Err } }),
+    ensures puo_post(*first_char, old(chars).rest(), old(chars).pos(), final(chars).rest(), final(chars).pos(), r)
 { unimplemented!() }
+// ---- environment of the two bodies (ASSUMED std contracts) ----
+/// `chars.take(n).map(|(_, c)| c).collect::<String>()`: the next n characters (fewer at the end of input), the iterator advanced past them
+#[verifier::external_body]
+pub fn __take_collect(n: usize, chars: &mut Enumerate<Chars>) -> (r: String)
+    ensures ({ let k = if old(chars).rest().len() < n { old(chars).rest().len() as int } else { n as int };
+               r@ == old(chars).rest().subrange(0, k) && final(chars).rest() == old(chars).rest().skip(k) && final(chars).pos() == old(chars).pos() + k })
+{ unimplemented!() }
+/// `chars.take(2).for_each(|(_, c)| s.push(c))`
+#[verifier::external_body]
+pub fn __take2_push(chars: &mut Enumerate<Chars>, s: &mut String)
+    ensures ({ let k = if old(chars).rest().len() < 2 { old(chars).rest().len() as int } else { 2int };
+               final(s)@ == old(s)@ + old(chars).rest().subrange(0, k) && final(chars).rest() == old(chars).rest().skip(k) && final(chars).pos() == old(chars).pos() + k })
+{ unimplemented!() }
+/// `String::with_capacity(3)`
+#[verifier::external_body]
+pub fn __string_with_capacity_n(n: usize) -> (r: String) ensures r@ == Seq::<char>::empty() { unimplemented!() }
+/// big-endian value of a run of octal digits
+pub open spec fn oct_val(t: Seq<char>) -> Option<int>
+    decreases t.len()
+{
+    if t.len() == 0 { None } else {
+        match octd(t.last()) { None => None, Some(d) =>
+            if t.len() == 1 { Some(d) } else { match oct_val(t.drop_last()) { None => None, Some(h) => Some(h * 8 + d) } } }
+    }
+}
+/// `u32::from_str_radix` (std, ASSUMED): a non-empty run of digits of the radix whose value fits is that value (nothing is said about
+/// signs, other radices or failures)
+pub assume_specification[u32::from_str_radix](s: &str, radix: u32) -> (r: Result<u32, ParseIntError>)
+    ensures (radix == 16 && hex_val(s@) is Some && hex_val(s@)->Some_0 <= u32::MAX) ==> r == Ok::<u32, ParseIntError>(hex_val(s@)->Some_0 as u32),
+            (radix == 8 && oct_val(s@) is Some && oct_val(s@)->Some_0 <= u32::MAX) ==> r == Ok::<u32, ParseIntError>(oct_val(s@)->Some_0 as u32);
+/// `char::from_u32` (std): exactly the Unicode scalar values are characters
+pub assume_specification[char::from_u32](u: u32) -> (r: Option<char>)
+    ensures r == (if is_scalar(u as int) { Some(chr(u as int)) } else { None::<char> });
+pub proof fn lemma_hex_val_bound(t: Seq<char>)
+    ensures hex_val(t) is Some ==> 0 <= hex_val(t)->Some_0 < pow16(t.len())
+    decreases t.len()
+{
+    reveal_with_fuel(pow16, 2);
+    if t.len() > 1 {
+        lemma_hex_val_bound(t.drop_last());
+        assert(t.drop_last().len() == t.len() - 1);
+        assert(pow16(t.len()) == 16 * pow16((t.len() - 1) as nat));
+    }
+    if t.len() >= 1 { assert(hexd(t.last()) is Some ==> 0 <= hexd(t.last())->Some_0 <= 15); }
+}
+pub open spec fn pow16(n: nat) -> int decreases n { if n == 0 { 1 } else { 16 * pow16((n - 1) as nat) } }
 broadcast use {lit_ax::axiom_chr_of_char, lit_ax::axiom_char_of_chr, vstd::string::group_string_axioms};
 // ---- parse_bytes environment (R6 wrappers; each body is the original expression, each contract ASSUMED from std) ----
 #[verifier::external_body] pub fn __vec_with_capacity(s: &str) -> (r: Vec<u8>) ensures r@ == Seq::<u8>::empty() { unimplemented!() }
